@@ -1,5 +1,6 @@
 import Anysystem.Props.C06
 import Anysystem.Proofs.SimStepThms
+import Anysystem.Proofs.SimStepFns
 #print axioms Anysystem.Sim.nextEvent_some
 #print axioms Anysystem.Sim.nextEvent_none
 #print axioms Anysystem.Sim.addEvent_time
@@ -14,3 +15,10 @@ import Anysystem.Proofs.SimStepThms
 #print axioms Anysystem.Sim.stepUntilNoEvents_spec
 #print axioms Anysystem.Sim.step_false_events
 #print axioms Anysystem.Sim.stepUntilLocalMax_immediate
+#print axioms Anysystem.Sim.stepUntilLocal_some
+#print axioms Anysystem.Sim.stepUntilLocal_none
+#print axioms Anysystem.Sim.stepUntilLocalMax_some
+#print axioms Anysystem.Sim.stepUntilLocalMax_none
+#print axioms Anysystem.Sim.stepUntilTime_spec
+#print axioms Anysystem.Sim.stepForDuration_steps
+#print axioms Anysystem.Sim.stepForDuration_spec
